@@ -145,7 +145,7 @@ def case_key(scn, meta):
     if t == 'P':
         return ('P', cfg, scn['shape'], op['route'], op['stat'])
     if t == 'X':
-        return ('X', cfg, scn['shape'], op['route'], meta['exp'][0:2])
+        return ('X', cfg, scn['shape'], op['route'], meta['exp'][0:2], meta.get('hist'))
     return (t, cfg, scn['shape'])
 
 
@@ -276,8 +276,9 @@ def dist_add(stats, scn, meta):
         key = 'call via %s|age=%d|%s' % (meta['route'], meta['age'], pol)
         stats['dist_calls'][key] = stats['dist_calls'].get(key, 0) + 1
     elif t == 'X':
-        key = '%s|%s|%s' % (op['route'], meta['exp'][1] if meta['exp'][0] == 'error' else 'ok', pol)
+        key = '%s|%s|object class %s|%s' % (op['route'], meta['exp'][1] if meta['exp'][0] == 'error' else 'ok', meta.get('hist'), pol)
         stats['dist'][key] = stats['dist'].get(key, 0) + 1
+        stats['histories'][meta.get('hist')] = stats['histories'].get(meta.get('hist'), 0) + 1
         stats['routes'][op['route']] = stats['routes'].get(op['route'], 0) + 1
 
 
@@ -299,7 +300,7 @@ def report(ctx, summary, replay, stats):
 def new_stats():
     return {'programs': 0, 'built': 0, 'cached': 0, 'failed': 0, 'calls': 0, 'evaluations': 0, 'old_pointer_calls': 0, 'violations': 0,
             'model_diffs': 0, 'model_lines_compared': 0, 'distinct': set(), 'dist': {}, 'dist_calls': {}, 'routes': {}, 'shapes': {}, 'policies': {},
-            'samples': [], 'by_type': {}, 'info_same': {}}
+            'samples': [], 'by_type': {}, 'info_same': {}, 'histories': {}}
 
 
 def compile_all(jobs, inc_hash, stats, prefix='c09'):
@@ -341,7 +342,8 @@ def generated(ctx, rng):
         shape = shapes[(i * 2 + off + i // len(shapes)) % len(shapes)]
         indirect = G.POLICIES[pol][2]
         out.append(G.make_scenario(rng, 's%d_%d_%s_%s' % (ctx.seed, i, pol, shape), shape, pol, ndebug=bool(nd),
-                                   sanitize=bool(indirect or i % 3 != 2), late_class=(i % 4 != 3), size=2 if i % 2 == 0 else 3))
+                                   sanitize=bool(indirect or i % 3 != 2), late_class=(i % 4 != 3), size=2 if i % 2 == 0 else 3,
+                                   dyn_class=(i % 3 == 1)))
     return out
 
 
